@@ -449,6 +449,54 @@ def ob_topology_edit(kind):
     return Ob("C06.topology_edit[%s]" % kind, "B", body, clause="valid and invertible for the CURRENT topology of a live model (bounded)", funcs=FUNCS)
 
 
+def _heights_alone(kind, tree, dates, x):
+    tm, _ = treemodels.build_reparam(tree, NAMES[:5], dates, torch.tensor(x, dtype=torch.float64), kind)
+    return tm.node_heights.tolist(), tm.branch_lengths().tolist()
+
+
+def ob_models_one_process(kind):
+    """two tree models of DIFFERENT topologies in one process: the first one, evaluated (and re-initialised through its own hooks) after the
+    second has been built, has the node heights and branch lengths it has in a process of its own"""
+    def body():
+        from vt.isolate import fresh
+        n = 0
+        dates = [0.0, 2.0, 1.0, 0.5, 3.0]
+        trees_ = [(((0, 1), 2), (3, 4)), ((((0, 1), 2), 3), 4), ((0, (1, (2, 3))), 4)]
+        xs = {"ratios": [0.3, 0.6, 0.45, 7.5], "shifts": [0.4, 0.7, 0.3, 0.9]}[kind]
+        xs2 = {"ratios": [0.5, 0.2, 0.8, 9.0], "shifts": [0.2, 1.1, 0.6, 0.5]}[kind]
+        for ta, tb in ((trees_[0], trees_[1]), (trees_[1], trees_[2]), (trees_[2], trees_[0])):
+            alone1 = fresh(_heights_alone, kind, ta, dates, xs)        # before anything is built in this process
+            alone2 = fresh(_heights_alone, kind, ta, dates, xs2)
+            A, _ = treemodels.build_reparam(ta, NAMES[:5], dates, torch.tensor(xs, dtype=torch.float64), kind)
+            B, _ = treemodels.build_reparam(tb, NAMES[:5], dates, torch.tensor(xs2, dtype=torch.float64), kind)
+            B.node_heights, B.branch_lengths()
+            for stage, want in (("evaluated after the second model was built", alone1), ("after cpu() and a new parameter value", alone2)):
+                if stage.startswith("after cpu"):
+                    A.cpu()
+                    for hook in ("update_bounds", "sort_indices"):
+                        if hasattr(A.transform, hook):
+                            getattr(A.transform, hook)()
+                    treemodels.tree_parameter(A).tensor = torch.tensor(xs2, dtype=torch.float64)
+                got = (A.node_heights.tolist(), A.branch_lengths().tolist())
+                n += 1
+                for what, g_, w_ in (("node heights", got[0], want[0]), ("branch lengths", got[1], want[1])):
+                    if len(g_) != len(w_) or any(abs(a - b) > 1e-12 for a, b in zip(g_, w_)):
+                        raise Refuted("%s, topology %s %s (topology %s): %s are %s, in a process of its own the model has %s" % (kind, ta, stage, tb, what, g_, w_),
+                                      witness={"kind": kind, "first": str(ta), "second": str(tb), "stage": stage}, confirmed=True,
+                                      replay={"kind": "custom", "contract": "C06", "func": "replay_models_one_process", "args": {"kind": kind}})
+        return {"backend": "concrete", "cases": n, "bounded": "3 pairs of 5-taxon topologies",
+                "statement": "%s: a tree model evaluated after another model was built equals the same model in a process of its own (%d comparisons)" % (kind, n)}
+    return Ob("C06.models_in_one_process[%s]" % kind, "B", body, clause="valid and invertible whatever other tree models exist in the process (bounded)", funcs=FUNCS)
+
+
+def replay_models_one_process(args):
+    try:
+        ob_models_one_process(args["kind"]).fn()
+    except Refuted as e:
+        return False, e.detail
+    return True, "held"
+
+
 def replay_topology_edit(args):
     try:
         ob_topology_edit(args["kind"]).fn()
@@ -589,6 +637,7 @@ def obligations(tier, seed):
     for kind in ("ratios", "shifts"):
         obs.append(ob_inplace_update(kind))
         obs.append(ob_topology_edit(kind))
+        obs.append(ob_models_one_process(kind))
         for dk in ("int", "int_ages", "float"):
             obs.append(ob_dtype(kind, dk))
     for dk in ("int", "int_ages", "float"):
